@@ -114,6 +114,19 @@ type World struct {
 	ByHash  map[chainhash.Hash]*Node
 	Keys    []WalletKey
 	tag     uint32
+	fakeMu  sync.Mutex
+	fakes   map[fakeKey]fakeVal
+}
+
+type fakeKey struct {
+	n    *Node
+	kind string
+}
+
+type fakeVal struct {
+	data []byte
+	hash chainhash.Hash
+	ok   bool
 }
 
 type WalletKey struct {
@@ -564,4 +577,79 @@ func merkle(level []chainhash.Hash) chainhash.Hash {
 		level = next
 	}
 	return level[0]
+}
+
+// FakeFilter builds a well-formed basic filter for n's block that is wrong:
+// kind "omit" leaves out the script of one non-coinbase output (provably
+// inconsistent with the block), kind "extra" adds an element that is not in
+// the block (not provable from the block alone). ok is false when the block
+// has no suitable output for "omit".
+func (w *World) FakeFilter(n *Node, kind string) (data []byte, hash chainhash.Hash, ok bool) {
+	ck := fakeKey{n, kind}
+	w.fakeMu.Lock()
+	if r, hit := w.fakes[ck]; hit {
+		w.fakeMu.Unlock()
+		return r.data, r.hash, r.ok
+	}
+	w.fakeMu.Unlock()
+	defer func() {
+		w.fakeMu.Lock()
+		if w.fakes == nil {
+			w.fakes = map[fakeKey]fakeVal{}
+		}
+		w.fakes[ck] = fakeVal{data, hash, ok}
+		w.fakeMu.Unlock()
+	}()
+	var entries [][]byte
+	seen := map[string]bool{}
+	add := func(s []byte) {
+		if len(s) == 0 || s[0] == 0x6a || seen[string(s)] {
+			return
+		}
+		seen[string(s)] = true
+		entries = append(entries, s)
+	}
+	for _, sp := range n.Spent {
+		add(sp.Script)
+	}
+	for _, tx := range n.Block.Transactions {
+		for _, o := range tx.TxOut {
+			add(o.PkScript)
+		}
+	}
+	switch kind {
+	case "omit":
+		// scripts of non-coinbase outputs that are not also paid by
+		// the coinbase or spent (those would stay in the filter)
+		var cand []byte
+		for ti, tx := range n.Block.Transactions {
+			if ti == 0 {
+				continue
+			}
+			for _, o := range tx.TxOut {
+				if len(o.PkScript) > 0 && o.PkScript[0] != 0x6a {
+					cand = o.PkScript
+				}
+			}
+		}
+		if cand == nil {
+			return nil, chainhash.Hash{}, false
+		}
+		var kept [][]byte
+		for _, e := range entries {
+			if string(e) != string(cand) {
+				kept = append(kept, e)
+			}
+		}
+		entries = kept
+	case "extra":
+		entries = append(entries, append([]byte{0x00, 0x14}, hash160(n.Hash[:])...))
+	}
+	key := builder.DeriveKey(&n.Hash)
+	f, err := gcs.BuildGCSFilter(builder.DefaultP, builder.DefaultM, key, entries)
+	if err != nil {
+		return nil, chainhash.Hash{}, false
+	}
+	data, _ = f.NBytes()
+	return data, chainhash.DoubleHashH(data), true
 }
